@@ -11,9 +11,12 @@ Core Lean, executable.
 -/
 namespace PgVerif.Model.Json
 
-/-- JSON scalars as they appear in metadata (numbers as exact decimal text produced by the harness) -/
+/-- JSON scalars as they appear in metadata and in data cells (numbers as exact decimal text produced by the harness).
+`nan` is the MISSING numeric cell: what pandas stores where a quantity was not recorded (IEEE NaN; python's `json` writes the
+bare token `NaN` for it and reads it back), and what `DataFrame.from_dict` puts where a row object lacks a key.
+`null` is python's `None` (a missing entry of a column that holds no numbers at all, or a `None` metadata value). -/
 inductive Scalar
-  | null | bool (b : Bool) | int (n : Int) | num (repr : String) | str (s : String)
+  | null | bool (b : Bool) | int (n : Int) | num (repr : String) | str (s : String) | nan
   deriving DecidableEq, Repr
 
 /-- metadata values: scalars, flat lists, and one level of dictionary (material properties) -/
@@ -113,6 +116,74 @@ def decode (le : Scalar → Scalar → Bool) (d : Doc) : Option Iso :=
       (List.zipWith decodeRow objs marks).mapM id |>.map fun rows => ⟨core, .points rows⟩
   | _, some (.model m) => some ⟨core, .model m⟩
   | _, _ => some ⟨core, .none⟩
+
+/-! ### the reader, step by step: the data frame
+
+`isotherm_from_json` does not look at the row objects one by one as `decode` does: it first builds a table
+(`pandas.DataFrame.from_dict(list of row objects)`: the columns are the union of the keys, a row that lacks a key gets the
+MISSING value there), then rewrites the `branch` COLUMN — and only that column — with `fillna(0).replace('des', 1).astype(int)`,
+then hands the table to the constructor.  `decodeFrame` follows these steps; `Props/C06.lean` proves that on every document the
+writer produces for a rectangular table it agrees with `decode` (`decodeFrame_encode`), so that the inverse theorems hold for it,
+missing cells included. -/
+
+abbrev Obj := List (String × Scalar)
+
+/-- the value of a key in a row object; a row that lacks the key gets the missing value -/
+def cell (o : Obj) (k : String) : Scalar := ((o.find? (·.1 == k)).map (·.2)).getD .nan
+
+/-- the keys of `o` that `acc` does not have yet, appended in their order -/
+def addKeys (acc : List String) : Obj → List String
+  | [] => acc
+  | kv :: t => addKeys (if acc.contains kv.1 then acc else acc ++ [kv.1]) t
+
+/-- column labels of the table: the union of the keys of all row objects, in order of first appearance -/
+def frameColumns (acc : List String) : List Obj → List String
+  | [] => acc
+  | o :: t => frameColumns (addKeys acc o) t
+
+/-- the table: every row has every column -/
+def frame (objs : List Obj) : List Obj :=
+  objs.map fun o => (frameColumns [] objs).map fun k => (k, cell o k)
+
+/-- `fillna(0).replace('des', 1).astype(int)` on one cell of the `branch` column: a missing cell is an adsorption point.
+`none`: a cell the writer never produces (other text: `astype(int)` raises; fractional numbers: not modelled) -/
+def branchMark : Scalar → Option Nat
+  | .nan => some 0
+  | .null => some 0
+  | .str s => if s == "des" then some 1 else none
+  | .int n => if 0 ≤ n then some n.toNat else none
+  | .bool b => some (if b then 1 else 0)
+  | .num _ => none
+
+def isDataKey (k : String) : Bool := k != "pressure" && k != "loading" && k != "branch"
+
+/-- a row of the table and the mark assigned to it → a point.  Nothing is done to any cell: a missing cell stays missing -/
+def rowOfFrame (r : Obj) (mark : Nat) : Row :=
+  ⟨cell r "pressure", cell r "loading", mark, r.filter fun kv => isDataKey kv.1⟩
+
+/-- `isotherm_from_json` through the table.  `prep` is what the reader does to every row of a table THAT HAS A `branch` COLUMN
+besides rewriting that column: nothing (`decodeFrame` below takes `id`); the parameter exists so that `Props/C06.lean` can state
+what goes wrong when something is done there (e.g. `fillna(0)` on the whole table instead of on the `branch` column) -/
+def decodeFrameWith (prep : Obj → Obj) (le : Scalar → Scalar → Bool) (d : Doc) : Option Iso :=
+  let core : Dict := d.filterMap fun kv =>
+    if formatKeys.contains kv.1 then none else match kv.2 with | .mval v => some (kv.1, v) | _ => none
+  match lookup d "isotherm_data", lookup d "isotherm_model" with
+  | some (.data objs), _ =>
+    if objs.isEmpty then some ⟨core, .none⟩
+    else
+      let cols := frameColumns [] objs
+      let rows := if cols.contains "branch" then (frame objs).map prep else frame objs
+      if !(cols.contains "pressure" && cols.contains "loading") then none     -- the constructor refuses a table without them
+      else
+        let marks : Option (List Nat) :=
+          if cols.contains "branch" then rows.mapM fun r => branchMark (cell r "branch")
+          else some (splitAds le (rows.map fun r => cell r "pressure"))
+        marks.map fun ms => ⟨core, .points (List.zipWith rowOfFrame rows ms)⟩
+  | _, some (.model m) => some ⟨core, .model m⟩
+  | _, _ => some ⟨core, .none⟩
+
+/-- the reader as it is: no cell outside the `branch` column is touched -/
+def decodeFrame (le : Scalar → Scalar → Bool) (d : Doc) : Option Iso := decodeFrameWith id le d
 
 /-! ### identity -/
 
